@@ -129,6 +129,15 @@ def cases(ctx):
         cyc += cyclic_variants(p, rng, self_loops=True)
     fams.append(("GC", cyc))
     fams.append(("BB", bb_small(rng)))
+    ren = []
+    pool = ["a", "b", "c", "d", "e", "q", "w", "z", "n1", "n2", "n7", "x0", "x1", "sig", "t_0", "u", "v", "k9", "m", "p"]
+    pp = [p for p in g2 if p["ty"][3] in ("xor", "xnor") and p["ty"][4] in ("xor", "xnor") and len(p["fi"][3]) == 3 and len(p["fi"][4]) >= 3]
+    for i, p in enumerate(pp):
+        for v in range(12 if ctx.quick else 60):
+            r = ctx.rng("C01ren", i, v)
+            nm = r.sample(pool, 5)
+            ren.append(rename(p, dict(zip(p["names"], nm))))
+    fams.append(("RENAMED", ren))
     for src, fam in fams:
         for i, p in enumerate(fam):
             yield {"op": "cnf", "c": p, "src": src}
@@ -155,7 +164,7 @@ def cases(ctx):
 
 def solve_event(cg, c, p, assum_idx):
     ev = {"kind": "solve", "c": p, "assum": assum_idx, "exc": ""}
-    assum = {p["names"][i - 1]: b for i, b in assum_idx}
+    assum = {p["names"][i - 1]: (int(b) if (len(assum_idx) + i) % 2 else b) for i, b in assum_idx}   # bool or 0/1
     try:
         res = cg.sat.solve(c, assum)
         if res is False:
@@ -217,7 +226,7 @@ def run_case(case, ctx):
             exc = type(e).__name__
             ev.update({"nv": 0, "clauses": [], "vars": []})
     else:
-        assum = {p["names"][i - 1]: b for i, b in case["assum"]}
+        assum = {p["names"][i - 1]: (int(b) if (len(case["assum"]) + i) % 2 else b) for i, b in case["assum"]}   # bool or 0/1
         ev["assum"] = case["assum"]
         try:
             res = cg.sat.solve(c, assum)
